@@ -108,6 +108,8 @@ def _work(args):
             out["errors"].append((i, traceback.format_exc()[-2000:]))
             continue
         out["n"] += 1
+        if os.environ.get("VERIF_DIGESTS"):
+            out.setdefault("digests", {})[i] = rng.digest([res.get("digest"), sorted((k, v) for k, v in res.get("fired", {}).items()), sorted((k, v) for k, v in res.get("info", {}).items()), [(v["check"], v["detail"][:80]) for v in res["viol"]], bool(res.get("nontrivial"))])
         for k, v in res.get("fired", {}).items():
             out["fired"][k] += v
         for k, v in res.get("info", {}).items():
@@ -322,6 +324,8 @@ def main_check(spec, tier, master):
                 agg["samples"].append(o["sample"])
             viols.extend(o["viol"])
             errors.extend(o["errors"])
+            if "digests" in o:
+                agg.setdefault("digests", {}).setdefault(b, {}).update({str(k): v for k, v in o["digests"].items()})
     except Exception:
         traceback.print_exc()
         print("HARNESS-ERROR: worker pool failed / timed out")
@@ -408,6 +412,10 @@ def main_check(spec, tier, master):
         "wall_s": round(wall, 2),
         "violations": len(fresh),
     }
+    if os.environ.get("VERIF_DIGESTS"):
+        with open(os.environ["VERIF_DIGESTS"], "w") as fh:
+            json.dump(agg.get("digests", {}), fh, sort_keys=True)
+        return rc  # determinism sweeps do not rewrite evidence
     if rc != 2:
         os.makedirs(os.path.join(ROOT, "evidence"), exist_ok=True)
         with open(os.path.join(ROOT, "evidence", spec.id + ".json"), "w") as fh:
